@@ -1,6 +1,7 @@
 package main
 
 import (
+	"os"
 	"fmt"
 	"bytes"
 	"io"
@@ -49,6 +50,19 @@ func init() {
 	oracles["C13"] = func(seed int64, n int, tier, work string) *oracleReport {
 		o := newOracleRun("C13", seed)
 		gen := components["fmt.node"]
+		if os.Getenv("VERIF_ONLY_CASE") == "" {
+			// ---- probe of finding C13-K1 (the only place its class is raised): a FOLDED block scalar whose value ends in two
+			// or more line breaks gains one line break with every read + write
+			in := "a: >+\n  kept line\n\nb: 1\n"
+			if out1, err := roundTrip(in); err == nil {
+				din, e1 := parseStream(in)
+				dout, e2 := parseStream(out1)
+				o.note("probe-folded-keep", in)
+				if e1 != nil || e2 != nil || !reflect.DeepEqual(din, dout) {
+					o.fail("folded-scalar-trailing-breaks-grow", "a folded scalar that ends in two line breaks comes back with three", 0, in, out1, in)
+				}
+			}
+		}
 		for _, cs := range caseSeeds(seed, n, "C13") {
 			r := rand.New(rand.NewSource(cs))
 			if r.Intn(6) == 0 {
@@ -193,6 +207,18 @@ func init() {
 					sb.WriteString(pickS(r, []string{"---\n", "--- # sep comment\n", "---\n---\n", "---  \n"}))
 				}
 				sb.WriteString(s)
+				if node.Kind == yaml.MappingNode && node.Style&yaml.FlowStyle == 0 && len(node.Content) > 0 && strings.HasSuffix(s, "\n") && r.Intn(4) == 0 {
+					// ANY document — not only the last — may end in a block scalar; with keep chomping every line break before
+					// the next separator is data (seed C13i: the separator match stopped consuming the break before `---`)
+					// (a FOLDED scalar whose value ends in two or more line breaks is finding C13-K1 — the emitter adds a break on
+					// every write — and has its own probe below; the random stream keeps folded scalars to one final break)
+					st := pickS(r, []string{"|+", "|+", ">+", "|", "|-"})
+					blank := pickS(r, []string{"", "\n", "\n\n"})
+					if st == ">+" {
+						blank = ""
+					}
+					sb.WriteString("zzTail: " + st + "\n  kept line\n" + blank)
+				}
 				if r.Intn(6) == 0 {
 					// a document that is an EMPTY MAPPING is a document (unlike the nothing between two separators)
 					sb.WriteString("---\n" + pickS(r, []string{"{}\n", "{} # intentionally empty\n", "# head of the empty one\n{}\n"}))
